@@ -353,6 +353,14 @@ func (d *driver) analyze(res *runResult) {
 	text := string(b)
 	if res.timedOut {
 		res.rep.Inconclusive = append(res.rep.Inconclusive, "watchdog killed the run")
+		for _, sl := range stuckStateLoops(text) {
+			where := strings.Join(sl.frames, " < ")
+			msg := fmt.Sprintf("the run had to be killed; the dump shows a node's raft goroutine blocked [%s] in %s: the node serves nothing any more", sl.state, where)
+			res.rep.Findings = append(res.rep.Findings, oracle.Finding{Prop: "C15", Rule: "state-loop-blocked", Sig: "state-loop-blocked:" + sl.frames[0], Msg: msg})
+			if sl.inTransfer() {
+				res.rep.Findings = append(res.rep.Findings, oracle.Finding{Prop: "C16", Rule: "state-loop-blocked", Sig: "state-loop-blocked:" + sl.frames[0], Msg: msg})
+			}
+		}
 	} else if !res.completed {
 		// the process died
 		what := "process exited without completing"
